@@ -351,6 +351,25 @@ def split_module(text):
     return envs, links, nomangle
 
 
+def strip_embedded_rule_modules(text):
+    """Removes the top-level `mod <name> { ... }` blocks (brace matching; `//` comments ignored) and the digest trailer."""
+    text = re.sub(r"// DIGEST: \w+\s*$", "", text)
+    out, depth, inside = [], 0, False
+    for line in text.splitlines():
+        code = line.split("//")[0]
+        if not inside and re.match(r"mod \w+ \{\s*$", line):
+            inside, depth = True, 0
+        if inside:
+            depth += code.count("{") - code.count("}")
+            if depth < 0:
+                return None
+            if depth == 0:
+                inside = False
+            continue
+        out.append(line)
+    return None if inside else "\n".join(out)
+
+
 def static_c19(name, module_text_modulebuild, module_text_componentbuild, component_texts):
     """Textual agreement between the two builds of one program. Returns list of (sig, message)."""
     bad = []
@@ -386,11 +405,18 @@ def static_c19(name, module_text_modulebuild, module_text_componentbuild, compon
             core = "\n".join(body.splitlines()[1:])
             if core not in module_text_modulebuild:
                 bad.append(("rule-code-differs", f"the source of component {fname} does not occur verbatim in the single-file module"))
-    # both modules agree outside the embedded rule code / extern block
-    def strip_rules(t):
-        t = re.sub(r"\nmod \w+ \{\n.*?\n\}\n(?=(?:\nmod |#\[allow\(unused\)\]\npub struct))", "\n", t, flags=re.S)
-        t = re.sub(r"// DIGEST: \w+\s*$", "", t)
-        return t
+    # outside the embedded rule code the two modules are the same text: in particular the struct, the environment
+    # construction and the order in which close_until calls the rule functions agree
+    stripped = strip_embedded_rule_modules(module_text_modulebuild)
+    if stripped is None:
+        bad.append(("module-shape", "the single-file module does not have the expected shape (top-level `mod <rule> { .. }` blocks)"))
+    else:
+        a = [l.rstrip() for l in stripped.strip().splitlines() if l.strip()]
+        b = [l.rstrip() for l in re.sub(r"// DIGEST: \w+\s*$", "", module_text_componentbuild).strip().splitlines() if l.strip()]
+        if a != b:
+            import difflib
+            d = [l for l in difflib.unified_diff(a, b, "module build (rule modules removed)", "component build", lineterm="", n=1)][:40]
+            bad.append(("module-text-differs", "outside the embedded rule code the module of the module build and the module of the component build differ:\n" + "\n".join(d)))
     return bad
 
 
